@@ -43,6 +43,16 @@ func c15Gen(seed uint64, run int, tier string) *Case {
 	c.Cfg["mode"] = int64(run % 5)
 	c.Cfg["countsel"] = int64(run / 5)
 	c.Stratum = []string{"fixed-count", "random-counts", "restart-mid-listing", "client-readdir", "count-too-small"}[run%5]
+	if run%50 == 23 {
+		// one entry too large for any reply on this connection: reaching it is an error, it is not passed over
+		c.Stratum = "entry-larger-than-msize"
+		c.Cfg["oversized"] = 1
+		c.Cfg["msize"] = int64(r.Pick(256, 300, 330))
+		c.Cfg["n"] = int64(r.Pick(0, 1, 2, 5))
+		c.Cfg["maxname"] = 40
+		c.Cfg["mode"] = int64(r.Pick(0, 3))
+		return c
+	}
 	if (tier == "thorough" && run%250 == 7) || (tier != "thorough" && (run == 7 || run == 1008)) {
 		// thousands of entries with long names: the packed listing is larger than a megabyte
 		c.Stratum = "huge-directory+" + c.Stratum
@@ -120,6 +130,11 @@ func c15Exec(x *Ctx) {
 		default:
 			os.WriteFile(p, fileContent(n, i%7*13), 0o640)
 		}
+	}
+	if c.cfg("oversized") != 0 {
+		os.WriteFile(filepath.Join(dir, strings.Repeat("L", 252)), nil, 0o640)
+		c15Oversized(x, u, ms, dotu)
+		return
 	}
 	want := map[string]bool{}
 	if es, err := os.ReadDir(dir); err == nil {
@@ -395,4 +410,81 @@ func cmpNames(got []string, want map[string]bool) string {
 		return fmt.Sprintf("%q", l)
 	}
 	return fmt.Sprintf("listed %d names for %d entries: missing %s, twice %s, not in the directory %s", len(got), len(want), short(missing), short(dup), short(extra))
+}
+
+// c15Oversized: the directory holds an entry whose stat record is larger than msize-24. A listing that reaches it
+// gets an error there (raw read: Rerror; client Readdir: an error), never a zero-length reply that passes it over.
+func c15Oversized(x *Ctx, u *UfsSys, ms uint32, dotu bool) {
+	c := x.C
+	finished := false
+	if c.cfg("mode") == 3 {
+		rt.Go(rt.SiteSpawn, func() {
+			rt.SetName("client")
+			go9p.DefaultDebuglevel, go9p.DefaultLogger = 0, nil
+			clnt, _, err := u.Mount(ms-24, dotu, int(c.cfg("seg")), "")
+			if err != nil {
+				x.Violate("g0-mount", "mount failed: %v", err)
+				return
+			}
+			f, err := clnt.FOpen("d", go9p.OREAD)
+			if err != nil {
+				x.Violate("g0-mount", "FOpen of the directory failed: %v", err)
+				return
+			}
+			if ds, err := f.Readdir(0); err == nil {
+				x.Violate("g5-readdir", "Readdir(0) over a directory with an entry too large for msize %d returned %d entries and no error: the entry was passed over", ms, len(ds))
+			}
+			f.Close()
+			x.Probe("entry-larger-than-msize")
+			finished = true
+		})
+	} else {
+		sc := u.Raw(int(c.cfg("seg")))
+		p := sc.Peer
+		rt.Go(rt.SiteSpawn, func() {
+			rt.SetName("raw-client")
+			if !rawAttach(p, ms, dotu, "") {
+				x.Violate("g0-mount", "attach failed")
+				return
+			}
+			if r := p.Call(&Msg{Type: Twalk, Tag: 2, Fid: 0, Newfid: 1, Wname: []string{"d"}}); r == nil || r.M == nil || r.M.Type != Rwalk {
+				x.Violate("g0-mount", "walk to the directory failed")
+				return
+			}
+			if r := p.Call(&Msg{Type: Topen, Tag: 3, Fid: 1, Mode: 0}); r == nil || r.M == nil || r.M.Type != Ropen {
+				x.Violate("g0-mount", "open of the directory failed")
+				return
+			}
+			off, cnt := uint64(0), p.Msize-24
+			for i := 0; i < 20; i++ {
+				r := p.Call(&Msg{Type: Tread, Tag: uint16(10 + i), Fid: 1, Offset: off, Count: cnt})
+				if r == nil || r.M == nil {
+					x.Violate("g0-stalled", "directory read got no reply")
+					return
+				}
+				if r.M.Type == Rerror {
+					x.Probe("entry-larger-than-msize")
+					finished = true
+					return
+				}
+				if len(r.M.Data) == 0 {
+					x.Violate("g4-too-small", "a listing with the largest possible count (%d) ended with a zero-length reply at offset %d although the directory holds an entry that fits no reply: it was passed over instead of being refused", cnt, off)
+					return
+				}
+				if _, err := splitRecords(r.M.Data, p.Dotu); err != nil {
+					x.Violate("g1-partial-record", "a reply is not a sequence of whole stat records: %v", err)
+					return
+				}
+				off += uint64(len(r.M.Data))
+			}
+			x.Violate("g3-no-end", "the listing neither ended nor failed")
+		})
+	}
+	if !x.Run() {
+		return
+	}
+	u.CountFaults()
+	if !finished && len(x.Res.Viol) == 0 {
+		x.Violate("g0-stalled", "the directory session did not finish")
+	}
 }
